@@ -110,6 +110,8 @@ func checks() map[string]CheckDef {
 			{Pkg: "internal/zzverif/c09", Func: "HarnessRouteTable", Quick: [][]int64{{1, 1}, {1, 0}, {0, 1}, {0, 0}}, Labels: []string{"C09/only-allowed-routes-outside-api-prefix", "C09/profiling-only-when-enabled", "C09/routes-registered"}},
 			{Pkg: "internal/zzverif/c09", Func: "HarnessAuth", Quick: [][]int64{{1, 1, 1}, {0, 0, 1}}, Thorough: [][]int64{{1, 1, 2}, {1, 0, 3}, {0, 1, 1}, {0, 0, 2}},
 				Labels: []string{"C09/unauthenticated-gets-structured-401-before-any-handler-logic", "C09/authenticated-is-let-through", "C09/auth-disabled-routes-reachable-without-credentials", "C09/api-routes-registered"}},
+			{Pkg: "internal/zzverif/c09", Func: "HarnessRevokedLater", Quick: [][]int64{{1}}, Thorough: [][]int64{{2}, {3}},
+				Labels: []string{"C09/administrator-can-revoke", "C09/revoked-token-gets-structured-401-on-the-next-request"}},
 		},
 		Bounds:  []string{"every route that endpoints.SetupRoutes / metrics.Register / websocket.SetupEntrypoint register on the working tree (enumerated at run time) x {use_auth} x {debug_profiling}", "Authorization header = 0..3 space-separated space-free atoms, each an arbitrary string (this is every header value with at most two spaces, incl. empty parts)", "admin token an arbitrary non-empty space-free string; tokens table of k arbitrary rows (quick k=1, thorough k<=3)"},
 		Outside: []string{"gin's own route matching and net/http (routes are addressed by their pattern)", "metrics route (metrics are disabled in the harness)", "the websocket connect handshake (C10)", "header values with three or more spaces (all are refused by the same len(parts) != 2 test)"},
@@ -235,7 +237,7 @@ func checks() map[string]CheckDef {
 			{Pkg: "database", Func: "HarnessSecondStart", Quick: [][]int64{{1}, {2}}, Thorough: [][]int64{{3}},
 				Labels: []string{"C17/existing-headers-never-overwritten", "C17/start-on-inconsistent-leftover-is-refused"}},
 		},
-		Bounds:  []string{"export (real selectHeadersSQL, sqlx.Rows scanning, record writing) of an arbitrary INV-H store of k rows (quick k<=3, thorough k<=4) whose longest-chain headers are real headers (hash = block hash of the fields, genesis previous hash zero, work of the bits), followed by the real sqLiteAdapter.importHeaders / insertHeaders / prepareRecord / calculateFields / CreateMultiple into an empty database; every field symbolic (negative versions, maximal nonce, timestamps over the epoch range), bits of longest-chain rows from a 2-entry menu", "batch boundaries: the same records imported with batch size 1 through insertHeaders, threading the state like importHeaders does", "second start: importHeaders on an arbitrary non-empty table (k<=3 rows) with an arbitrary newest checkpoint"},
+		Bounds:  []string{"export (real selectHeadersSQL, sqlx.Rows scanning, record writing) of an arbitrary INV-H store of k rows (quick k<=3, thorough k<=4) whose longest-chain headers are real headers (hash = block hash of the fields, genesis previous hash zero, work of the bits), followed by the real sqLiteAdapter.importHeaders / insertHeaders / prepareRecord / calculateFields / CreateMultiple into an empty database; every field symbolic (negative versions, maximal nonce, timestamps over the epoch range), difficulty bits of every row from a 2-entry menu", "batch boundaries: the same records imported with batch size 1 through insertHeaders, threading the state like importHeaders does", "second start: importHeaders on an arbitrary non-empty table (k<=3 rows) with an arbitrary newest checkpoint"},
 		Outside: []string{"files, gzip, CSV text and quoting (a csv.Writer/Reader/os.File is a list of records)", "PRAGMA changes and index drop/restore have no effect on the relational content", "the production batch size of 500 (a chain longer than one production batch is outside the row bound; the batch-size-1 harness covers the threading between batches)", "malformed rows: only the refusal of an inconsistent table by validateDbConsistency enters (through the second-start harness)", "SHA-256 uninterpreted"},
 		Stubs:   []string{"encoding/csv and *os.File as record lists; sqlx.Rows over the sqlm result; sqlite_master index listing from the probed schema"},
 	})
